@@ -51,6 +51,8 @@ typedef unsigned long long sbs_u64;
 #define SBS_DESC_SIZE(sb)	(SBS_HAS_64BIT(sb) ? (unsigned int)(sb)->s_desc_size : 32u)
 #define SBS_DESC_SIZE_OK(sb)	(!SBS_HAS_64BIT(sb) || ((sb)->s_desc_size >= 64u && (sb)->s_desc_size <= 1024u && \
 							 ((sb)->s_desc_size & ((sb)->s_desc_size - 1u)) == 0))
+/* B7'' group_descr.rst: "the block group descriptor expands to at least 64 bytes" with 64bit (sizeof struct ext4_group_desc) */
+#define SBS_DESC_HOLDS_STRUCT(sb) (!SBS_HAS_64BIT(sb) || (sb)->s_desc_size >= 64u)
 /* B7' what memory safety needs even in "ignore superblock errors" mode: at least one descriptor per block */
 #define SBS_DESC_FITS_BLOCK(sb)	(SBS_DESC_SIZE(sb) != 0 && SBS_DESC_SIZE(sb) <= SBS_BLOCK_SIZE(sb))
 /* B8  one bitmap block per group: clusters per group <= 8 * block size, and non-zero */
@@ -58,6 +60,8 @@ typedef unsigned long long sbs_u64;
 /* B9  blocks per group = clusters per group * cluster ratio (without bigalloc the two are the same number);
  *      hence blocks per group <= 8 * block size * ratio; mke2fs/e2fsprogs additionally demand >= 8 and a multiple of 8 */
 #define SBS_BPG_CONSISTENT(sb)	((sbs_u64)(sb)->s_blocks_per_group == ((sbs_u64)(sb)->s_clusters_per_group << SBS_RATIO_BITS(sb)))
+/* the same equation in the 32-bit arithmetic of the field (what a reader that does not widen can establish) */
+#define SBS_BPG_CONSISTENT32(sb) ((sb)->s_blocks_per_group == (unsigned int)((sb)->s_clusters_per_group << SBS_RATIO_BITS(sb)))
 #define SBS_BPG_NONZERO(sb)	((sb)->s_blocks_per_group != 0)
 #define SBS_BPG_MIN8(sb)	((sb)->s_blocks_per_group >= 8u)
 #define SBS_BPG_MULT8(sb)	(((sb)->s_blocks_per_group & 7u) == 0)
@@ -70,11 +74,12 @@ typedef unsigned long long sbs_u64;
 #define SBS_FDB_OK(sb)		((sbs_u64)(sb)->s_first_data_block < SBS_BLOCKS_COUNT(sb))
 /*
  * B12 number of groups g = ceil((blocks_count - first_data_block) / blocks_per_group) fits 32 bits.
- *     "g is that ceiling" without division: (g-1)*bpg < n <= g*bpg  (n > 0 by B11, bpg > 0 by B9).
+ *     "q is the ceiling of n / d" (n > 0, d > 0) without division:  q >= 1  and  (q-1)*d < n <= q*d   (64-bit products of a
+ *     value below 2^32 with a 32-bit value do not wrap).
  */
-#define SBS_IS_GROUP_COUNT(sb, g) \
-	((g) >= 1 && (sbs_u64)((g) - 1) * (sb)->s_blocks_per_group < SBS_BLOCKS_COUNT(sb) - (sb)->s_first_data_block && \
-	 (SBS_BLOCKS_COUNT(sb) - (sb)->s_first_data_block + (sb)->s_blocks_per_group - 1) / (sb)->s_blocks_per_group == (g))
+#define SBS_IS_CEIL_QUOT(q, n, d) \
+	((sbs_u64)(q) >= 1 && (sbs_u64)(q) <= 0xffffffffull && \
+	 ((sbs_u64)(q) - 1) * (sbs_u64)(d) < (sbs_u64)(n) && (sbs_u64)(n) <= (sbs_u64)(q) * (sbs_u64)(d))
 /* inode-table blocks per group = ceil(inodes_per_group * inode_size / block_size), exact (no 32-bit wrap) */
 #define SBS_ITABLE_BLOCKS(sb)	((((sbs_u64)(sb)->s_inodes_per_group * SBS_INODE_SIZE(sb)) + SBS_BLOCK_SIZE(sb) - 1) >> SBS_BLOCK_BITS(sb))
 /* B13 s_inodes_count = groups * inodes per group */
